@@ -3,6 +3,7 @@
 Scenario keys used here (all JSON):
   frontend, framing, single, units {unit-id-string: layout}, opts,
   conns (int), deliveries [{c, hex, gap}], closes [{c, after, how}] (optional),
+  peer_closes [{c, at, how: 'eof'|'reset'}] (optional: the peer of that connection goes away at that instant),
   dsfault {unit, op, at} (optional), cpu_step, sched, settle
 Everything observable is returned in SrvResult; oracles live in props/.
 """
@@ -225,11 +226,26 @@ def run(scn, keep_log=False):
         last = t
         inputs = {cid: [] for cid in range(nconn)}
 
+        gone = set()                # connections the peer has closed / reset (a crashed or restarted client)
+
         def mk(cid, data):
             def ev():
+                if cid in gone:
+                    return          # the peer is gone: it sends nothing any more
                 inputs[cid].append((k.seq, data))
                 fe.deliver(cid, data)
             return ev
+
+        def peer_close(pc):
+            def ev():
+                if pc['c'] not in gone:
+                    gone.add(pc['c'])
+                    k.count('peer_' + pc.get('how', 'eof'))
+                    fe.close(pc['c'], pc.get('how', 'eof'))
+            return ev
+        for pc in scn.get('peer_closes') or []:
+            # at an arbitrary instant of the history (also between the pieces of one frame)
+            k.call_at(t + float(pc['at']), peer_close(pc), 'peer-close:c%d' % pc['c'])
         for cid_s, when in sorted(open_at.items()):
             k.call_at(t + float(when), (lambda cid=int(cid_s): fe.open(cid)), 'open:c%s' % cid_s)
         for d in scn['deliveries']:
